@@ -22,10 +22,11 @@ VARIABLES tr, i,
           cancelT, timeoutSeen, retSeen, ret,
           mS, mF, mD, mSetup, mSetupRes, labelsBad,
           stageCur, stageOpen, setupCleanupSeen, rvOK,
+          lmax,             \* contention ("light") runs: highest id of the contiguous prefix 1..lmax seen so far
           why
 vars == <<tr, i, setupSeen, ids, liveIds, liveH, endedIds, cleaned, succT, failT, sumTicks, lateSum, dropSum,
           stopSeen, limitSeen, evals, firstEvalT, pendingV, progS, progF, cancelT, timeoutSeen, retSeen, ret,
-          mS, mF, mD, mSetup, mSetupRes, labelsBad, stageCur, stageOpen, setupCleanupSeen, rvOK, why>>
+          mS, mF, mD, mSetup, mSetupRes, labelsBad, stageCur, stageOpen, setupCleanupSeen, rvOK, lmax, why>>
 
 Cfg == T[tr].cfg
 Min(a, b) == IF a < b THEN a ELSE b
@@ -48,7 +49,7 @@ Init == /\ tr \in 1..Len(T) /\ i = 0
         /\ progS = 0 /\ progF = 0 /\ cancelT = -1 /\ timeoutSeen = FALSE /\ retSeen = FALSE
         /\ ret = [s |-> 0, f |-> 0, d |-> 0, t |-> 0]
         /\ mS = 0 /\ mF = 0 /\ mD = 0 /\ mSetup = 0 /\ mSetupRes = "" /\ labelsBad = FALSE
-        /\ stageCur = 0 /\ stageOpen = FALSE /\ setupCleanupSeen = FALSE /\ rvOK = FALSE
+        /\ stageCur = 0 /\ stageOpen = FALSE /\ setupCleanupSeen = FALSE /\ rvOK = FALSE /\ lmax = 0
         /\ why = IF T[tr].err = "" THEN {} ELSE {F("MACHINERY", T[tr].err)}
 
 Unch(vs) == UNCHANGED vs
@@ -58,7 +59,7 @@ Setup(e) ==
     /\ why' = why \cup Fails(<< <<setupSeen = -1, "C06", "setup-ran-twice">>,
                                  <<ids = {}, "C06", "setup-after-iteration">> >>)
     /\ setupSeen' = e.a
-    /\ Unch(<<ids, liveIds, liveH, endedIds, cleaned, succT, failT, sumTicks, lateSum, dropSum, stopSeen, limitSeen, evals,
+    /\ Unch(<<lmax, ids, liveIds, liveH, endedIds, cleaned, succT, failT, sumTicks, lateSum, dropSum, stopSeen, limitSeen, evals,
               firstEvalT, pendingV, progS, progF, cancelT, timeoutSeen, retSeen, ret, mS, mF, mD, mSetup, mSetupRes,
               labelsBad, stageCur, stageOpen, setupCleanupSeen, rvOK>>)
 
@@ -70,7 +71,7 @@ Eval(e) ==
     IN /\ why' = why \cup Fails(<< <<cadenceOK, "C09", "more-evaluations-than-ticks">>,
                                    <<e.a >= 0 \/ TRUE, "C09", "x">> >>)
        /\ evals' = evals + 1 /\ firstEvalT' = t0 /\ pendingV' = e.a
-       /\ Unch(<<setupSeen, ids, liveIds, liveH, endedIds, cleaned, succT, failT, sumTicks, lateSum, dropSum, stopSeen,
+       /\ Unch(<<lmax, setupSeen, ids, liveIds, liveH, endedIds, cleaned, succT, failT, sumTicks, lateSum, dropSum, stopSeen,
                  limitSeen, progS, progF, cancelT, timeoutSeen, retSeen, ret, mS, mF, mD, mSetup, mSetupRes, labelsBad,
                  stageCur, stageOpen, setupCleanupSeen, rvOK>>)
 
@@ -80,20 +81,20 @@ Tick(e) ==
     /\ IF stopSeen THEN lateSum' = lateSum + e.a /\ Unch(sumTicks)
                    ELSE sumTicks' = sumTicks + e.a /\ Unch(lateSum)
     /\ pendingV' = -1
-    /\ Unch(<<setupSeen, ids, liveIds, liveH, endedIds, cleaned, succT, failT, dropSum, stopSeen, limitSeen, evals,
+    /\ Unch(<<lmax, setupSeen, ids, liveIds, liveH, endedIds, cleaned, succT, failT, dropSum, stopSeen, limitSeen, evals,
               firstEvalT, progS, progF, cancelT, timeoutSeen, retSeen, ret, mS, mF, mD, mSetup, mSetupRes, labelsBad,
               stageCur, stageOpen, setupCleanupSeen, rvOK>>)
 
 StopFlag(e) ==
     /\ stopSeen' = TRUE /\ why' = why
-    /\ Unch(<<setupSeen, ids, liveIds, liveH, endedIds, cleaned, succT, failT, sumTicks, lateSum, dropSum, limitSeen, evals,
+    /\ Unch(<<lmax, setupSeen, ids, liveIds, liveH, endedIds, cleaned, succT, failT, sumTicks, lateSum, dropSum, limitSeen, evals,
               firstEvalT, pendingV, progS, progF, cancelT, timeoutSeen, retSeen, ret, mS, mF, mD, mSetup, mSetupRes,
               labelsBad, stageCur, stageOpen, setupCleanupSeen, rvOK>>)
 
 Limit(e) ==
     /\ limitSeen' = TRUE
     /\ why' = why \cup Fails(<< <<Cfg.maxiter > 0, "C03", "limit-path-without-limit">> >>)
-    /\ Unch(<<setupSeen, ids, liveIds, liveH, endedIds, cleaned, succT, failT, sumTicks, lateSum, dropSum, stopSeen, evals,
+    /\ Unch(<<lmax, setupSeen, ids, liveIds, liveH, endedIds, cleaned, succT, failT, sumTicks, lateSum, dropSum, stopSeen, evals,
               firstEvalT, pendingV, progS, progF, cancelT, timeoutSeen, retSeen, ret, mS, mF, mD, mSetup, mSetupRes,
               labelsBad, stageCur, stageOpen, setupCleanupSeen, rvOK>>)
 
@@ -107,7 +108,7 @@ DropEv(e) ==
             <<Cfg.mode = "file" \/ started + dropSum + e.a <= sumTicks + lateSum, "C02", "more-started-plus-dropped-than-requested">>,
             <<~(e.b = 1 /\ limitAlone), "C02", "limit-discard-reported-as-dropped">> >>)
        /\ dropSum' = dropSum + e.a
-       /\ Unch(<<setupSeen, ids, liveIds, liveH, endedIds, cleaned, succT, failT, sumTicks, lateSum, stopSeen, limitSeen, evals,
+       /\ Unch(<<lmax, setupSeen, ids, liveIds, liveH, endedIds, cleaned, succT, failT, sumTicks, lateSum, stopSeen, limitSeen, evals,
                  firstEvalT, pendingV, progS, progF, cancelT, timeoutSeen, retSeen, ret, mS, mF, mD, mSetup, mSetupRes,
                  labelsBad, stageCur, stageOpen, setupCleanupSeen, rvOK>>)
 
@@ -117,22 +118,37 @@ Start(e) ==
           <<e.a \notin ids, "C03", "duplicate-iteration-id">>,
           <<e.a >= 1, "C03", "id-not-positive">>,
           <<Cfg.maxiter = 0 \/ (e.a <= Cfg.maxiter /\ Cardinality(ids) + 1 <= Cfg.maxiter), "C03", "more-invocations-than-max-iterations">>,
-          <<Cfg.mode = "file" \/ Cardinality(liveH) < Cfg.conc, "C04", "more-than-concurrency-in-flight">>,
-          <<e.b \notin liveH, "C04", "handle-shared-by-concurrent-iterations">>,
+          <<Cfg.mode = "file" \/ Cfg.light \/ Cardinality(liveH) < Cfg.conc, "C04", "more-than-concurrency-in-flight">>,
+          <<Cfg.light \/ e.b \notin liveH, "C04", "handle-shared-by-concurrent-iterations">>,
           <<e.d = 0, "C07", "iteration-started-in-failed-state">>,
-          <<e.c <= Deadline + SLACK, "C05", "iteration-started-after-triggering-should-have-stopped">>,
+          <<Cfg.light \/ e.c <= Deadline + SLACK, "C05", "iteration-started-after-triggering-should-have-stopped">>,
           <<Cfg.rate_mode = FALSE \/ Cfg.mode = "file" \/ Cardinality(ids) + 1 + dropSum <= sumTicks + lateSum, "C02", "started-more-than-requested">>,
-          <<~setupCleanupSeen, "C06", "iteration-after-setup-cleanups">> >>)
-    /\ ids' = ids \cup {e.a} /\ liveIds' = liveIds \cup {e.a} /\ liveH' = liveH \cup {e.b}
-    /\ Unch(<<setupSeen, endedIds, cleaned, succT, failT, sumTicks, lateSum, dropSum, stopSeen, limitSeen, evals, firstEvalT,
+          <<Cfg.light \/ ~setupCleanupSeen, "C06", "iteration-after-setup-cleanups">> >>)
+    /\ ids' = ids \cup {e.a}
+    /\ IF Cfg.light THEN Unch(<<lmax, liveIds, liveH>>)      \* contention runs log the ids only, after the run
+       ELSE liveIds' = liveIds \cup {e.a} /\ liveH' = liveH \cup {e.b}
+    /\ Unch(<<lmax, setupSeen, endedIds, cleaned, succT, failT, sumTicks, lateSum, dropSum, stopSeen, limitSeen, evals, firstEvalT,
               pendingV, progS, progF, cancelT, timeoutSeen, retSeen, ret, mS, mF, mD, mSetup, mSetupRes, labelsBad,
               stageCur, stageOpen, setupCleanupSeen, rvOK>>)
+
+\* contention runs: after the run the harness sorts the ids its bodies recorded (lock-free) and
+\* reports maximal runs of consecutive ids a..b in increasing order; a duplicate or a gap breaks
+\* the chain  a = lmax + 1
+IdRange(e) ==
+    /\ why' = why \cup Fails(<<
+          <<setupSeen = 1, "C06", "iteration-without-successful-setup">>,
+          <<e.a = lmax + 1 /\ e.b >= e.a, "C03", "iteration-ids-not-unique-and-gapless">>,
+          <<Cfg.maxiter = 0 \/ e.b <= Cfg.maxiter, "C03", "more-invocations-than-max-iterations">> >>)
+    /\ lmax' = IF e.b > lmax THEN e.b ELSE lmax
+    /\ Unch(<<setupSeen, ids, liveIds, liveH, endedIds, cleaned, succT, failT, sumTicks, lateSum, dropSum, stopSeen, limitSeen,
+              evals, firstEvalT, pendingV, progS, progF, cancelT, timeoutSeen, retSeen, ret, mS, mF, mD, mSetup, mSetupRes,
+              labelsBad, stageCur, stageOpen, setupCleanupSeen, rvOK>>)
 
 End(e) ==
     /\ why' = why \cup Fails(<< <<e.a \in liveIds /\ e.b \in liveH, "C06", "end-without-start">> >>)
     /\ liveIds' = liveIds \ {e.a} /\ liveH' = liveH \ {e.b} /\ endedIds' = endedIds \cup {e.a}
     /\ IF e.d = 1 THEN failT' = failT + 1 /\ Unch(succT) ELSE succT' = succT + 1 /\ Unch(failT)
-    /\ Unch(<<setupSeen, ids, cleaned, sumTicks, lateSum, dropSum, stopSeen, limitSeen, evals, firstEvalT, pendingV, progS,
+    /\ Unch(<<lmax, setupSeen, ids, cleaned, sumTicks, lateSum, dropSum, stopSeen, limitSeen, evals, firstEvalT, pendingV, progS,
               progF, cancelT, timeoutSeen, retSeen, ret, mS, mF, mD, mSetup, mSetupRes, labelsBad, stageCur, stageOpen,
               setupCleanupSeen, rvOK>>)
 
@@ -143,17 +159,17 @@ Cleanup(e) ==
           <<e.a \notin cleaned, "C06", "cleanup-ran-twice">>,
           <<e.b \notin liveH, "C06", "cleanup-after-next-iteration-started-on-same-worker">> >>)
     /\ cleaned' = cleaned \cup {e.a}
-    /\ Unch(<<setupSeen, ids, liveIds, liveH, endedIds, succT, failT, sumTicks, lateSum, dropSum, stopSeen, limitSeen, evals,
+    /\ Unch(<<lmax, setupSeen, ids, liveIds, liveH, endedIds, succT, failT, sumTicks, lateSum, dropSum, stopSeen, limitSeen, evals,
               firstEvalT, pendingV, progS, progF, cancelT, timeoutSeen, retSeen, ret, mS, mF, mD, mSetup, mSetupRes,
               labelsBad, stageCur, stageOpen, setupCleanupSeen, rvOK>>)
 
 SetupCleanup(e) ==
     /\ why' = why \cup Fails(<<
           <<~setupCleanupSeen, "C06", "setup-cleanup-ran-twice">>,
-          <<timeoutSeen \/ (liveIds = {} /\ e.a = 0), "C06", "setup-cleanup-while-iterations-in-flight">>,
+          <<Cfg.light \/ timeoutSeen \/ (liveIds = {} /\ e.a = 0), "C06", "setup-cleanup-while-iterations-in-flight">>,
           <<~retSeen, "C06", "setup-cleanup-after-return">> >>)
     /\ setupCleanupSeen' = TRUE
-    /\ Unch(<<setupSeen, ids, liveIds, liveH, endedIds, cleaned, succT, failT, sumTicks, lateSum, dropSum, stopSeen, limitSeen,
+    /\ Unch(<<lmax, setupSeen, ids, liveIds, liveH, endedIds, cleaned, succT, failT, sumTicks, lateSum, dropSum, stopSeen, limitSeen,
               evals, firstEvalT, pendingV, progS, progF, cancelT, timeoutSeen, retSeen, ret, mS, mF, mD, mSetup, mSetupRes,
               labelsBad, stageCur, stageOpen, rvOK>>)
 
@@ -163,19 +179,19 @@ Progress(e) ==
           <<e.a >= progS /\ e.b >= progF, "C01", "progress-counts-decreased">>,
           <<e.d <= dropSum, "C01", "progress-shows-more-dropped-than-reported">> >>)
     /\ progS' = e.a /\ progF' = e.b
-    /\ Unch(<<setupSeen, ids, liveIds, liveH, endedIds, cleaned, succT, failT, sumTicks, lateSum, dropSum, stopSeen, limitSeen,
+    /\ Unch(<<lmax, setupSeen, ids, liveIds, liveH, endedIds, cleaned, succT, failT, sumTicks, lateSum, dropSum, stopSeen, limitSeen,
               evals, firstEvalT, pendingV, cancelT, timeoutSeen, retSeen, ret, mS, mF, mD, mSetup, mSetupRes, labelsBad,
               stageCur, stageOpen, setupCleanupSeen, rvOK>>)
 
 Cancel(e) ==
     /\ cancelT' = e.c /\ why' = why
-    /\ Unch(<<setupSeen, ids, liveIds, liveH, endedIds, cleaned, succT, failT, sumTicks, lateSum, dropSum, stopSeen, limitSeen,
+    /\ Unch(<<lmax, setupSeen, ids, liveIds, liveH, endedIds, cleaned, succT, failT, sumTicks, lateSum, dropSum, stopSeen, limitSeen,
               evals, firstEvalT, pendingV, progS, progF, timeoutSeen, retSeen, ret, mS, mF, mD, mSetup, mSetupRes, labelsBad,
               stageCur, stageOpen, setupCleanupSeen, rvOK>>)
 
 TimeoutMsg(e) ==
     /\ timeoutSeen' = TRUE /\ why' = why
-    /\ Unch(<<setupSeen, ids, liveIds, liveH, endedIds, cleaned, succT, failT, sumTicks, lateSum, dropSum, stopSeen, limitSeen,
+    /\ Unch(<<lmax, setupSeen, ids, liveIds, liveH, endedIds, cleaned, succT, failT, sumTicks, lateSum, dropSum, stopSeen, limitSeen,
               evals, firstEvalT, pendingV, progS, progF, cancelT, retSeen, ret, mS, mF, mD, mSetup, mSetupRes, labelsBad,
               stageCur, stageOpen, setupCleanupSeen, rvOK>>)
 
@@ -183,26 +199,28 @@ TimeoutMsg(e) ==
 NoReturn(e) ==
     /\ why' = why \cup {F("C05", "run-did-not-return")}
     /\ timeoutSeen' = TRUE
-    /\ Unch(<<setupSeen, ids, liveIds, liveH, endedIds, cleaned, succT, failT, sumTicks, lateSum, dropSum, stopSeen, limitSeen,
+    /\ Unch(<<lmax, setupSeen, ids, liveIds, liveH, endedIds, cleaned, succT, failT, sumTicks, lateSum, dropSum, stopSeen, limitSeen,
               evals, firstEvalT, pendingV, progS, progF, cancelT, retSeen, ret, mS, mF, mD, mSetup, mSetupRes, labelsBad,
               stageCur, stageOpen, setupCleanupSeen, rvOK>>)
 
 Rendezvous(e) ==
     /\ rvOK' = (e.a = 1) /\ why' = why
-    /\ Unch(<<setupSeen, ids, liveIds, liveH, endedIds, cleaned, succT, failT, sumTicks, lateSum, dropSum, stopSeen, limitSeen,
+    /\ Unch(<<lmax, setupSeen, ids, liveIds, liveH, endedIds, cleaned, succT, failT, sumTicks, lateSum, dropSum, stopSeen, limitSeen,
               evals, firstEvalT, pendingV, progS, progF, cancelT, timeoutSeen, retSeen, ret, mS, mF, mD, mSetup, mSetupRes,
               labelsBad, stageCur, stageOpen, setupCleanupSeen>>)
 
 Return(e) ==
-    LET n == Cardinality(ids)
+    LET n == IF Cfg.light THEN lmax ELSE Cardinality(ids)
         complete == ~timeoutSeen /\ liveIds = {}
         \* the trigger kept requesting until the limit stopped it
         endedByLimit == Cfg.maxiter > 0 /\ cancelT < 0 /\
                         (limitSeen \/ (Cfg.mode = "users" /\ e.c + SLACK < Cfg.maxdur_us))
     IN /\ why' = why \cup Fails(<<
-            <<ids = 1..n, "C03", "iteration-ids-not-gapless">>,
+            <<Cfg.light \/ ids = 1..n, "C03", "iteration-ids-not-gapless">>,
             <<~endedByLimit \/ n = Cfg.maxiter, "C03", "not-exactly-max-iterations">>,
-            <<~complete \/ (e.a = succT /\ e.b = failT), "C01", "result-counts-differ-from-executed-iterations">>,
+            <<Cfg.light \/ ~complete \/ (e.a = succT /\ e.b = failT), "C01", "result-counts-differ-from-executed-iterations">>,
+            <<~Cfg.light \/ timeoutSeen \/ e.a + e.b = n, "C01", "result-counts-differ-from-invocations">>,
+            <<timeoutSeen \/ liveIds = {}, "C05", "returned-with-iterations-in-flight">>,
             <<e.d = dropSum, "C01", "result-dropped-differs-from-reported-drops">>,
             <<~(Cfg.rate_mode /\ Cfg.mode # "file" /\ Cfg.maxiter = 0 /\ lateSum = 0) \/ n + dropSum = sumTicks,
                   "C02", "request-neither-started-nor-dropped">>,
@@ -210,11 +228,11 @@ Return(e) ==
             <<(setupSeen = 1) \/ n = 0, "C06", "iterations-after-failed-setup">>,
             <<~Cfg.setup_fail \/ e.s # "", "C06", "failed-setup-did-not-fail-the-run">>,
             <<setupCleanupSeen, "C06", "setup-cleanup-missing-at-return">>,
-            <<~complete \/ cleaned = ids, "C06", "iteration-cleanup-missing-at-return">>,
+            <<Cfg.light \/ ~complete \/ cleaned = ids, "C06", "iteration-cleanup-missing-at-return">>,
             <<~Cfg.rendezvous \/ rvOK, "C04", "not-all-workers-could-run-at-once">>,
             <<e.c <= Deadline + Cfg.wait_us + 3 * SLACK, "C05", "returned-too-late">> >>)
        /\ retSeen' = TRUE /\ ret' = [s |-> e.a, f |-> e.b, d |-> e.d, t |-> e.c]
-       /\ Unch(<<setupSeen, ids, liveIds, liveH, endedIds, cleaned, succT, failT, sumTicks, lateSum, dropSum, stopSeen, limitSeen,
+       /\ Unch(<<lmax, setupSeen, ids, liveIds, liveH, endedIds, cleaned, succT, failT, sumTicks, lateSum, dropSum, stopSeen, limitSeen,
                  evals, firstEvalT, pendingV, progS, progF, cancelT, timeoutSeen, mS, mF, mD, mSetup, mSetupRes, labelsBad,
                  stageCur, stageOpen, setupCleanupSeen, rvOK>>)
 
@@ -222,13 +240,13 @@ Return(e) ==
 \* d = 1 when the harness found the label set wrong (keys missing / static label not paired with its value)
 Metric(e) ==
     /\ why' = why \cup Fails(<< <<e.d = 0, "C16", "series-label-set-wrong">> >>)
-    /\ CASE e.b = 1 -> mSetup' = mSetup + e.a /\ mSetupRes' = e.s /\ Unch(<<mS, mF, mD>>)
-         [] e.c = 0 -> mS' = mS + e.a /\ Unch(<<mF, mD, mSetup, mSetupRes>>)
-         [] e.c = 1 -> mF' = mF + e.a /\ Unch(<<mS, mD, mSetup, mSetupRes>>)
-         [] e.c = 2 -> mD' = mD + e.a /\ Unch(<<mS, mF, mSetup, mSetupRes>>)
-         [] OTHER -> Unch(<<mS, mF, mD, mSetup, mSetupRes>>)
+    /\ CASE e.b = 1 -> mSetup' = mSetup + e.a /\ mSetupRes' = e.s /\ Unch(<<lmax, mS, mF, mD>>)
+         [] e.c = 0 -> mS' = mS + e.a /\ Unch(<<lmax, mF, mD, mSetup, mSetupRes>>)
+         [] e.c = 1 -> mF' = mF + e.a /\ Unch(<<lmax, mS, mD, mSetup, mSetupRes>>)
+         [] e.c = 2 -> mD' = mD + e.a /\ Unch(<<lmax, mS, mF, mSetup, mSetupRes>>)
+         [] OTHER -> Unch(<<lmax, mS, mF, mD, mSetup, mSetupRes>>)
     /\ labelsBad' = (labelsBad \/ e.d # 0)
-    /\ Unch(<<setupSeen, ids, liveIds, liveH, endedIds, cleaned, succT, failT, sumTicks, lateSum, dropSum, stopSeen, limitSeen,
+    /\ Unch(<<lmax, setupSeen, ids, liveIds, liveH, endedIds, cleaned, succT, failT, sumTicks, lateSum, dropSum, stopSeen, limitSeen,
               evals, firstEvalT, pendingV, progS, progF, cancelT, timeoutSeen, retSeen, ret, stageCur, stageOpen,
               setupCleanupSeen, rvOK>>)
 
@@ -236,7 +254,7 @@ Metric(e) ==
 Summary(e) ==
     /\ why' = why   \* compared with the result in After (the summary is printed when Do returns)
     /\ progS' = e.a /\ progF' = e.b
-    /\ Unch(<<setupSeen, ids, liveIds, liveH, endedIds, cleaned, succT, failT, sumTicks, lateSum, dropSum, stopSeen, limitSeen,
+    /\ Unch(<<lmax, setupSeen, ids, liveIds, liveH, endedIds, cleaned, succT, failT, sumTicks, lateSum, dropSum, stopSeen, limitSeen,
               evals, firstEvalT, pendingV, cancelT, timeoutSeen, retSeen, ret, mS, mF, mD, mSetup, mSetupRes, labelsBad,
               stageCur, stageOpen, setupCleanupSeen, rvOK>>)
 
@@ -250,10 +268,11 @@ After(e) ==
           <<timeoutSeen \/ e.d = 0, "C05", "goroutine-of-the-run-remains">>,
           <<e.b2 = "", "C15", "stage-parameters-left-in-environment">>,
           <<mS = ret.s /\ mF = ret.f /\ mD = ret.d, "C16", "exported-iteration-samples-differ-from-result">>,
+          <<dropSum = ret.d, "C01", "iterations-reported-dropped-after-the-final-result">>,
           <<mSetup = 1, "C16", "setup-metric-not-exactly-one-sample">>,
           <<(setupSeen = 1) = (mSetupRes = "success"), "C16", "setup-metric-labelled-with-wrong-outcome">>,
           <<progS = ret.s /\ progF = ret.f, "C19", "summary-counts-differ-from-result">> >>)
-    /\ Unch(<<setupSeen, ids, liveIds, liveH, endedIds, cleaned, succT, failT, sumTicks, lateSum, dropSum, stopSeen, limitSeen,
+    /\ Unch(<<lmax, setupSeen, ids, liveIds, liveH, endedIds, cleaned, succT, failT, sumTicks, lateSum, dropSum, stopSeen, limitSeen,
               evals, firstEvalT, pendingV, progS, progF, cancelT, timeoutSeen, retSeen, ret, mS, mF, mD, mSetup, mSetupRes,
               labelsBad, stageCur, stageOpen, setupCleanupSeen, rvOK>>)
 
@@ -265,12 +284,12 @@ Stage(e) ==
           <<e.s = e.b2, "C15", "stage-parameters-not-in-environment-while-triggering">> >>)
     /\ stageCur' = e.a /\ stageOpen' = (e.b = 1)
     /\ stopSeen' = IF e.b = 1 THEN FALSE ELSE stopSeen
-    /\ Unch(<<setupSeen, ids, liveIds, liveH, endedIds, cleaned, succT, failT, sumTicks, lateSum, dropSum, limitSeen, evals,
+    /\ Unch(<<lmax, setupSeen, ids, liveIds, liveH, endedIds, cleaned, succT, failT, sumTicks, lateSum, dropSum, limitSeen, evals,
               firstEvalT, pendingV, progS, progF, cancelT, timeoutSeen, retSeen, ret, mS, mF, mD, mSetup, mSetupRes,
               labelsBad, setupCleanupSeen, rvOK>>)
 
 Other(e) == why' = why /\
-    Unch(<<setupSeen, ids, liveIds, liveH, endedIds, cleaned, succT, failT, sumTicks, lateSum, dropSum, stopSeen, limitSeen,
+    Unch(<<lmax, setupSeen, ids, liveIds, liveH, endedIds, cleaned, succT, failT, sumTicks, lateSum, dropSum, stopSeen, limitSeen,
            evals, firstEvalT, pendingV, progS, progF, cancelT, timeoutSeen, retSeen, ret, mS, mF, mD, mSetup, mSetupRes,
            labelsBad, stageCur, stageOpen, setupCleanupSeen, rvOK>>)
 
@@ -285,6 +304,7 @@ Next == /\ i < Len(T[tr].ev)
              [] e.k = "dropev" -> DropEv(e)
              [] e.k = "start" -> Start(e)
              [] e.k = "end" -> End(e)
+             [] e.k = "idrange" -> IdRange(e)
              [] e.k = "cleanup" -> Cleanup(e)
              [] e.k = "setupcleanup" -> SetupCleanup(e)
              [] e.k = "progress" -> Progress(e)
